@@ -58,13 +58,89 @@ def names_upto(alpha, L):
     return [list(t) for k in range(0, L + 1) for t in itertools.product(alpha, repeat=k)]
 
 
+_builtin_fns = {}
+
+
+def builtin_fns():
+    """the library's own $eq / $eq_type, taken once, before this process constructs its first Checker"""
+    if not _builtin_fns:
+        _builtin_fns.update(lvs().DEFAULT_USER_FNS)
+    return _builtin_fns
+
+
 def user_fns():
     """$eq / $eq_type are the library's; $in / $isv are harness functions whose meaning is Lvs!Fn."""
     C = enc().Component
-    fns = dict(lvs().DEFAULT_USER_FNS)
+    fns = dict(builtin_fns())
     fns['$in'] = lambda c, args: any(x is not None and bytes(x) == bytes(c) for x in args)
     fns['$isv'] = lambda c, args: C.get_type(c) == C.TYPE_VERSION
     return fns
+
+
+# ------------------------------------------------------------------ function tables (Lvs!Retab)
+
+FN_NAMES = ['$eq', '$eq_type', '$in', '$isv']          # identifiers the generated schemas use
+DEFAULT_TAB = {f: f for f in FN_NAMES}
+MEANINGS = ['$eq', '$in', '$isv', '$ne', '$true', '$false']   # canonical meanings a table may give to an identifier
+
+
+def meaning_fns():
+    """canonical meaning -> callable; the harness functions mean exactly what Lvs!Fn says ('$false': not listed
+    there, holds for nothing)."""
+    C = enc().Component
+    b = builtin_fns()
+    return {'$eq': b['$eq'], '$eq_type': b['$eq_type'],
+            '$in': lambda c, args: any(x is not None and bytes(x) == bytes(c) for x in args),
+            '$isv': lambda c, args: C.get_type(c) == C.TYPE_VERSION,
+            '$ne': lambda c, args: all(x is None or bytes(x) != bytes(c) for x in args),
+            '$true': lambda c, args: True,
+            '$false': lambda c, args: False}
+
+
+class InjectedFault(Exception):
+    """raised by a user function of the harness at a chosen call (a callee of Checker.match failing)"""
+
+
+class FnTable:
+    """The dictionary of user functions handed to ONE checker (a dict object of its own): identifier -> function
+    with the meaning tab[identifier].  Counts the calls and can make the k-th call of an enumeration raise."""
+
+    def __init__(self, tab):
+        self.tab = dict(tab)
+        self.calls = 0
+        self.fault_at = None
+        self.raised = False
+        m = meaning_fns()
+        self.fns = {name: self._wrap(m[mean]) for name, mean in self.tab.items()}
+
+    def _wrap(self, fn):
+        def call(c, args):
+            self.calls += 1
+            if self.fault_at is not None and self.calls == self.fault_at:
+                self.raised = True
+                raise InjectedFault()
+            return fn(c, args)
+        return call
+
+    def arm(self, k):
+        self.calls, self.fault_at, self.raised = 0, k, False
+
+    def disarm(self):
+        self.fault_at = None
+
+
+def fns_used(rules):
+    return sorted({o['f'] for r in rules for cs in r['cons'] for c in cs for o in c['opts'] if o['k'] == 'f'})
+
+
+def other_tab(rules, rng):
+    """a table that gives at least one identifier the schema uses another meaning (identity when it uses none)"""
+    tab = dict(DEFAULT_TAB)
+    used = fns_used(rules)
+    if used:
+        for f in rng.sample(used, rng.randint(1, len(used))):
+            tab[f] = rng.choice([m for m in MEANINGS if m != f])
+    return tab
 
 
 # ------------------------------------------------------------------ schema AST helpers / rendering
@@ -133,12 +209,12 @@ def norm_rule(rn):
     return m.group(1) if m else rn
 
 
-def build(text):
+def build(text, fns=None):
     """compile_lvs + Checker(model, fns). Returns (outcome, checker|None, message)."""
     L = lvs()
     try:
         model = L.compile_lvs(text)
-        ck = L.Checker(model, user_fns())
+        ck = L.Checker(model, user_fns() if fns is None else fns)
         return 'ok', ck, ''
     except L.SemanticError as e:
         return 'SemanticError', None, str(e)
@@ -153,14 +229,14 @@ def build(text):
 _prev_text = [None]
 
 
-def build2(text):
+def build2(text, fns=None):
     """The schema as an application may meet it: compile_lvs(text) is called, then another schema is compiled
     (the previous one of this run), then compile_lvs(text) again, and the Checker whose answers are recorded
     is built from the SECOND model.  A compilation must not depend on earlier compilations in the process.
     Returns (outcome, checker|None, message, note); note is None, 'model-differs' (the two models encode
     differently) or 'second-compile-<outcome>' (the first attempt was accepted, the second not)."""
     L = lvs()
-    oc, ck, msg = build(text)
+    oc, ck, msg = build(text)               # (the checker that is kept gets the caller's function dictionary)
     prev, _prev_text[0] = _prev_text[0], text
     if ck is None:
         return oc, ck, msg, None
@@ -171,7 +247,7 @@ def build2(text):
             L.compile_lvs(prev)
         except Exception:  # noqa - outcome of the other schema is judged where it is generated
             pass
-    oc2, ck2, msg2 = build(text)
+    oc2, ck2, msg2 = build(text, fns)
     if ck2 is None:
         return oc, ck, msg, 'second-compile-%s' % oc2
     note = None if bytes(ck2.model.encode()) == first else 'model-differs'
@@ -250,25 +326,142 @@ def exc_class(e):
     return type(e).__name__
 
 
+def decode_matches(raw):
+    """items yielded by Checker.match -> ('ok', [{rule, ctx}]) | ('BadResult:<type>', [])
+    (synthetic '#_<node>' results dropped)"""
+    out = []
+    for item in raw:
+        if type(item) is not tuple or len(item) != 2 or not isinstance(item[1], dict):
+            return 'BadResult:%s' % type(item).__name__, []
+        rules, cx = item
+        c = sorted([k, comp_str(v)] for k, v in cx.items())
+        for rn in rules:
+            if _RE_SYNTH.match(rn):
+                continue
+            out.append({'rule': norm_rule(rn), 'ctx': c})
+    return 'ok', out
+
+
 def run_match(ck, name):
     """-> ('ok', [{rule, ctx}]) or (exception class name, [])   (synthetic '#_<node>' results dropped).
     All results are collected first (as `list(checker.match(n))` in an application) and looked at afterwards:
     every yielded pair must stay valid after the generator moved on."""
     try:
-        raw = list(ck.match(real_name(name)))
-        out = []
-        for item in raw:
-            if type(item) is not tuple or len(item) != 2 or not isinstance(item[1], dict):
-                return 'BadResult:%s' % type(item).__name__, []
-            rules, cx = item
-            c = sorted([k, comp_str(v)] for k, v in cx.items())
-            for rn in rules:
-                if _RE_SYNTH.match(rn):
-                    continue
-                out.append({'rule': norm_rule(rn), 'ctx': c})
-        return 'ok', out
+        return decode_matches(list(ck.match(real_name(name))))
     except Exception as e:  # noqa
         return exc_class(e), []
+
+
+# ------------------------------------------------------------------ histories: long-lived checkers, ways of consuming match
+
+class History:
+    """One process lifetime: several Checker objects over one model (constructed from the model object or loaded
+    from its bytes, each with a function dictionary of its own) and a sequence of enumerations
+    `Checker.match(name)` consumed in different ways.  Executes a list of operations (plain data, so that a
+    history can be replayed) and records one event per enumeration, in the order the enumerations START:
+
+      {'a': 'new', 'tab': {identifier: meaning}, 'via': 'direct' | 'load'}
+      {'a': 'enum', 'ck': c, 'ni': i, 'mode': m, 'k': k, 'end': e, 'inner': [operations]}
+         mode 'full'    list(match(n))
+              'take'    the consumer stops after k results (next / any / break); the abandoned generator is then
+                        closed (end 'close'), dropped (end 'drop') or kept suspended until the history ends ('keep')
+              'abort'   the k-th user function call of this enumeration raises InjectedFault
+              'nested'  k results are taken, the `inner` operations run while the generator is suspended, then the
+                        rest is taken
+    event: {'ck', 'ni', 'mode', 'k', 'ny': items delivered, 'oc': 'ok' | exception class, 'res': decoded results,
+            'conc': enumerations suspended on the same checker meanwhile}     (indices are 1-based)"""
+
+    def __init__(self, model, saved, names, decode=decode_matches):
+        self.model, self.saved, self.names = model, saved, names
+        self.decode = decode
+        self.cks = []          # (checker, FnTable, via)
+        self.hist = []
+        self.susp = []         # (ck index, generator) suspended at the moment
+
+    def add(self, ck, ft, via):
+        self.cks.append((ck, ft, via))
+        return len(self.cks)
+
+    def new(self, tab, via):
+        L = lvs()
+        ft = FnTable(tab)
+        ck = L.Checker(self.model, ft.fns) if via == 'direct' else L.Checker.load(self.saved, ft.fns)
+        return self.add(ck, ft, via)
+
+    def cks_json(self):
+        return [{'tab': ft.tab, 'via': via} for _, ft, via in self.cks]
+
+    def run(self, ops):
+        for op in ops:
+            if op['a'] == 'new':
+                self.new(op['tab'], op['via'])
+            else:
+                self.enum(op['ck'], op['ni'], op['mode'], op.get('k', 0), op.get('end', 'close'), op.get('inner', ()))
+
+    def enum(self, c, ni, mode, k=0, end='close', inner=()):
+        ck, ft, _ = self.cks[c - 1]
+        ev = {'ck': c, 'ni': ni, 'mode': mode, 'k': k, 'ny': 0, 'oc': 'ok', 'res': [],
+              'conc': sum(1 for c2, _ in self.susp if c2 == c)}
+        self.hist.append(ev)
+        raw = []
+        gen = None
+        if mode == 'abort':
+            ft.arm(k)
+        try:
+            gen = ck.match(real_name(self.names[ni - 1]))
+            if mode in ('full', 'abort'):
+                for item in gen:
+                    raw.append(item)
+            else:
+                for item in gen:
+                    raw.append(item)
+                    if len(raw) >= k:
+                        break
+                if mode == 'nested':
+                    me = (c, gen)
+                    self.susp.append(me)
+                    try:
+                        self.run(inner)
+                    finally:
+                        self.susp.remove(me)
+                    for item in gen:
+                        raw.append(item)
+        except Exception as e:  # noqa
+            ev['oc'] = exc_class(e)
+        if mode == 'abort':
+            if ft.raised and ev['oc'] == 'ok':
+                ev['oc'] = 'fault-swallowed'
+            ft.disarm()
+        if mode == 'take' and gen is not None:
+            if end == 'close':
+                gen.close()
+            elif end == 'keep':
+                self.susp.append((c, gen))
+        ev['ny'] = len(raw)
+        oc, ev['res'] = self.decode(raw)
+        if oc != 'ok' and ev['oc'] == 'ok':
+            ev['oc'] = oc
+        return ev
+
+    def finish(self):
+        """the history ends: generators kept suspended are released"""
+        for _, gen in self.susp:
+            gen.close()
+        self.susp = []
+
+    def judged(self, ctx, prop, text):
+        """events for the judge; an exception out of an enumeration in which no fault was injected is reported here"""
+        out = []
+        for ev in self.hist:
+            if ev['oc'] != 'ok' and ev['mode'] != 'abort':
+                nm = self.names[ev['ni'] - 1]
+                ctx.violation('%s/Checker.match/history/%s/%s' % (prop, ev['mode'], ev['oc']),
+                              'Checker.match(%r) consumed as %r raises %s; schema\n%s'
+                              % ('/' + '/'.join(nm), ev['mode'], ev['oc'], text),
+                              {'kind': 'text', 'text': text, 'name': nm})
+                continue
+            out.append(ev)
+        return out
 
 
 def _answer(res):
